@@ -1124,16 +1124,30 @@ func c03Constructors(c *Ctx) {
 			perm := ev.LoadField(p.State, r, "permittedExecutions")
 			var want *T
 			F := p.State.Facts
-			switch {
-			case F.Truth(ts, ts.Cmp("!=", sc, zero)) == triT:
-				want = sc
-			case F.Truth(ts, ts.Cmp("!=", fe, zero)) == triT:
-				want = fe
-			case F.Truth(ts, ts.Cmp("==", sc, zero)) == triT && F.Truth(ts, ts.Cmp("==", fe, zero)) == triT:
-				want = fc
+			// the precedence is decided for every configuration the path stands for: a path that never looked at the
+			// success capacity is checked both with and without one
+			rowsOK := true
+			for _, R := range F.Refine(ts, ts.Cmp("!=", sc, zero), ts.Cmp("!=", fe, zero)) {
+				var w *T
+				switch {
+				case R.Truth(ts, ts.Cmp("!=", sc, zero)) == triT:
+					w = sc
+				case R.Truth(ts, ts.Cmp("!=", fe, zero)) == triT:
+					w = fe
+				default:
+					w = fc
+				}
+				if !sameUnder(ev, R, perm, w) {
+					rowsOK = false
+				}
+				want = w
 			}
+			F = p.State.Facts
 			mk := eventsWhere(p, func(e *Event) bool { return isCall(e, "newStats") })
-			if r.Op != "alloc" || want == nil || !sameUnder(ev, F, perm, want) || len(mk) != 1 || len(fullArgs(mk[0])) != 3 || !sameUnder(ev, F, argN(mk[0], 2), want) || !isFalse(argN(mk[0], 1)) || ev.LoadField(p.State, r, "stats") != mk[0].Res[0] || ev.LoadField(p.State, r, "breaker") != b {
+			if !rowsOK {
+				want = nil
+			}
+			if r.Op != "alloc" || want == nil || len(mk) != 1 || len(fullArgs(mk[0])) != 3 || !sameUnder(ev, F, argN(mk[0], 2), perm) || !isFalse(argN(mk[0], 1)) || ev.LoadField(p.State, r, "stats") != mk[0].Res[0] || ev.LoadField(p.State, r, "breaker") != b {
 				ok = false
 				c.Fail(c.fn(fn), c.P.FuncPos(fn), "a half-open state must start with fresh count-based stats and as many trial permits as its capacity (success capacity, else execution threshold, else failure capacity)", pathTrace(ev, p))
 			}
